@@ -14,7 +14,9 @@ DRIVE_TARGETS = ["HugrVerif.Drive.Build"]
 RULE = (
     "TrackedDfg circuits of width 1..6 (Qubit / Bool / int<5> inputs), 1..40 commands over track_wire / "
     "track_wires / track_inputs / untrack_wire / tracked_wire / add / extend / add_op / set_indexed_outputs / "
-    "set_tracked_outputs with mixed integer and wire arguments, untracked holes, metadata on most added nodes; "
+    "set_tracked_outputs with mixed integer and wire arguments (also wires that are tracked at that moment, passed "
+    "explicitly), the same Command objects added again later (a prepared layer of gates applied twice), untracked "
+    "holes, metadata on most added nodes; "
     "4% of the circuits name an untracked index once (IndexError expected).  Each circuit gives two cases: the "
     "tracked program and its REFERENCE elaboration (every integer replaced by the wire reference it denotes: "
     "most recent write) on a plain Dfg; both run on the real builders and on the model (stream build.run); the "
@@ -221,6 +223,17 @@ def stats(spec, obs, counters):
                     counters["add:metadata"] += 1
         if any(c[0] == "untrack_wire" for c in prog):
             counters["with-holes"] += 1
+        keys = [c[-1]["obj"] for c in prog if c[0] in ("add", "extend") and isinstance(c[-1], dict) and "obj" in c[-1]]
+        if len(keys) != len(set(keys)):
+            counters["same-command-object-added-again"] += 1
+        held = set()
+        for k, tb in enumerate(gen_prog.elaborate_tracked(prog)[2]):
+            c = prog[k]
+            ws = c[4] if c[0] == "add" else [w for _, cw in c[3] for w in cw] if c[0] == "extend" else []
+            if any(not isinstance(w, int) and json.dumps(w) in held for w in ws):
+                counters["tracked-wire-passed-explicitly"] += 1
+                break
+            held = {json.dumps(w) for t in tb.values() for w in t if w is not None}
         if '"err"' in obs:
             counters["raises:" + ("IndexError" if "IndexError" in obs else "other")] += 1
 
